@@ -13,7 +13,7 @@ EXPLANATION = ("(R02.1) panic-site census (same engine and table as C08) over ev
                "(read_exact, byteorder read_uN, bincode) or compare the count of a lenient one (read, read_to_end, io::copy) before use, so a field cut by truncation is an "
                "error and never a shorter value; (R02.6) the vector the encryption reader stores in chunk_cache is at most CHUNK_SIZE long on every path (length upper-bound "
                "analysis over with_capacity / read_to_end(take(K)) / resize / truncate), so tag bytes of a cut chunk are never handed out as data; (R02.7) every error convert_to_archive returns is produced by the output writer: source-side failures "
-               "become a status and reach the clean-up and finalize. Content being a prefix "
+               "become a status and reach the clean-up and finalize; (R02.8) = R13.4; (R02.9) the buffer the block copy loop reads into is allocated with a size of at least 1 (an empty buffer makes every read return 0 and the loop never ends). Content being a prefix "
                "of the original is runtime and not decided.")
 TRUSTED = ['rustc MIR', 'sha2 Digest', 'std collections']
 ASSUMPTIONS = ['termination of the block loop is not decided (each iteration consumes at least the block tag)']
